@@ -157,7 +157,7 @@ def main():
         "setup_cmd": "./check setup",
         "hooks": {
             "guard": "cargo feature `verif` (and `verif-asan` for the AddressSanitizer lifetime export) in /repo/Cargo.toml; all hook code is behind #[cfg(feature = \"verif\")]",
-            "enable": "the harness crate /verif/harness depends on naijascript with features=[\"verif\"] (\"verif-asan\" via its own `asan` feature); CLI builds used by C08/C14/C17 are built without the feature",
+            "enable": "the harness crate /verif/harness depends on naijascript with features=[\"verif\"] (\"verif-asan\" via its own `asan` feature); the CLI builds used by C08/C14/C17/C18 (cli-dbg, cli-rel) are built without the feature; the additional AddressSanitizer build of the CLI used by C14 (cli-asan) enables `verif-asan` on the command line",
             "baseline_off_cmd": "cd /repo && cargo nextest run --workspace --no-fail-fast --offline --test-threads 8",
             "source_commits": ["bca2e77"],
             "add_only": True,
